@@ -79,7 +79,10 @@ type scenario struct {
 	prefix func(cl *world.Client, raw net.Conn) bool
 }
 
-func send(raw net.Conn, s string) { raw.SetWriteDeadline(time.Now().Add(3 * time.Second)); io.WriteString(raw, s) }
+func send(raw net.Conn, s string) {
+	raw.SetWriteDeadline(time.Now().Add(3 * time.Second))
+	io.WriteString(raw, s)
+}
 
 func readLine(cl *world.Client) string {
 	cl.C.SetReadDeadline(time.Now().Add(3 * time.Second))
@@ -314,11 +317,11 @@ func main() {
 					drained := make(chan struct{})
 					go func() { io.Copy(io.Discard, b); close(drained) }()
 					// what deadline does the server hold at this wait?
-					obsMs := lastD.Round(10*time.Millisecond).Milliseconds()
+					obsMs := lastD.Round(10 * time.Millisecond).Milliseconds()
 					if st == "imapIdle" {
 						// polling: the largest deadline requested while idling
 						time.Sleep(1300 * time.Millisecond)
-						obsMs = conn.maxSince(mark).Round(10*time.Millisecond).Milliseconds()
+						obsMs = conn.maxSince(mark).Round(10 * time.Millisecond).Milliseconds()
 					}
 					ask(fmt.Sprintf("t.deadline %s %d", st, lmtpTimeout), func(ans string) {
 						rep.Hit("deadline:" + st + "=" + ans)
